@@ -28,6 +28,8 @@
     * mpckks masked transform failed for prec ≤ 53 with Decode/Encode         (probe transform_prec)
 -/
 import Lattigo.Proofs.MPSwitch
+import Lattigo.Props.C16Ring
+import Lattigo.Props.C16Noise
 
 namespace Lattigo.Props.C16
 open Lattigo.MP
